@@ -29,6 +29,27 @@
 // pages; a small quarantine still catches use-after-free of the objects of the current case.
 extern "C" const char *__asan_default_options() { return "quarantine_size_mb=4:thread_local_quarantine_size_kb=64:allocator_release_to_os_interval_ms=-1"; }
 
+
+/// Whether SIG is listed as an open known finding for this run (--known on the command line, VP_KNOWN for
+/// libFuzzer).  The "continue behind a known crashing class" detours are taken only while their signature is
+/// listed; otherwise the class is executed like any other input and a sanitizer abort is a violation.
+static bool knownOpen(const std::string &sig)
+{
+    static const std::set<std::string> *known = [] {
+        std::string list;
+        if (const char *e = getenv("VP_KNOWN")) list = e;
+        std::ifstream f("/proc/self/cmdline", std::ios::binary);
+        const std::string all((std::istreambuf_iterator<char>(f)), std::istreambuf_iterator<char>());
+        std::vector<std::string> args;
+        std::string cur;
+        for (char ch : all) { if (ch == '\0') { args.push_back(cur); cur.clear(); } else cur += ch; }
+        if (!cur.empty()) args.push_back(cur);
+        for (size_t i = 0; i + 1 < args.size(); ++i) if (args[i] == "--known") list += "," + args[i + 1];
+        return new std::set<std::string>(vp::splitCsv(list));
+    }();
+    return known->count(sig) > 0;
+}
+
 static const size_t Cap = Ipc::TypedMsgHdr::maxSize; // documented capacity of the data buffer
 
 struct Pod24 { int64_t b; int32_t a; char c[12]; }; // no padding: the object representation is the payload
@@ -567,7 +588,7 @@ static vp::Verdict checkRawImpl(const RawCase &c, vp::Ctx &ctx, const bool exact
     std::unique_ptr<Ipc::TypedMsgHdr> heapMsg;
     std::unique_ptr<char[]> arena;
     Ipc::TypedMsgHdr *rx = nullptr;
-    const bool useArena = reachesOverRead && !exactObject;
+    const bool useArena = reachesOverRead && !exactObject && knownOpen("raw:over-read-when-received-size-exceeds-buffer");
     if (useArena) {
         const size_t total = sizeof(Ipc::TypedMsgHdr) + ArenaGuard + 64;
         arena.reset(new char[total]);
@@ -629,8 +650,8 @@ static vp::Verdict checkRawImpl(const RawCase &c, vp::Ctx &ctx, const bool exact
                 total = n + len;
             }
         }
-        if (known) ctx.label("known-class:over-read-step");
-        if (g.kind == "str" && m.overReadClass(o, n) && !exactObject) {
+        if (known) ctx.label("over-read-class-step");
+        if (g.kind == "str" && m.overReadClass(o, n) && useArena) {
             // Known class, string flavour: the length prefix itself straddles the end of the buffer.  After
             // that over-read getString() goes on with offset > 4096 and a garbage length, which UBSan
             // (index out of bounds in getRaw) turns into an abort even inside the arena.  Counted and
